@@ -271,6 +271,232 @@ theorem xyz_malformed_reached (hs : ∀ n, pyInt (showNat n) = some (n : Int)) (
 end xyz
 
 
+/-! ## SDF (writer + reader) -/
+
+section sdf
+variable {α β : Type} (fc : Nat → Nat → Line) (pa : Line → Option α) (fa : α → Line)
+  (pb : Line → Option β) (fb : β → Line)
+
+/-- the counts line is printed so that the reader's column cuts recover both numbers and the V2000 tag -/
+def SdfCountsOk (fc : Nat → Nat → Line) : Prop :=
+  ∀ na nb, pyInt ((fc na nb).take 3) = some (na : Int) ∧ pyInt (((fc na nb).drop 3).take 3) = some (nb : Int) ∧
+    lastWordUpper (fc na nb) = some ['V', '2', '0', '0', '0'] ∧ isBlank (fc na nb) = false
+
+/-- **prefix-consumption law** for SDF: title by position (a title `$$$$` or `M  END` is inside the domain), two
+    comment lines, counts, atom and bond blocks, then the search for `$$$$` stops at the record's own terminator. -/
+theorem sdf_prefix_law (hc : SdfCountsOk fc) (ha : ∀ a, pa (fa a) = some a) (hb : ∀ b, pb (fb b) = some b)
+    (f : SdfFrame α β) (hnl : '\n' ∉ f.title) (rest : List Line) (ln : Int) :
+    ∃ ln', sdfLoadOne pa pb ⟨sdfDumpOne fc fa fb f ++ rest, ln⟩ = .ok (sdfNorm f) ⟨rest, ln'⟩ := by
+  obtain ⟨h1, h2, h3, _⟩ := hc f.atoms.length f.bonds.length
+  obtain ⟨ln1, hr1⟩ := readN_map pa fa ha f.atoms
+    (f.bonds.map fb ++ ((['M', ' ', ' ', 'E', 'N', 'D'] : Line) :: sdfEnd :: rest)) (ln + 1 + 1 + 1 + 1)
+  obtain ⟨ln2, hr2⟩ := readN_map pb fb hb f.bonds ((['M', ' ', ' ', 'E', 'N', 'D'] : Line) :: sdfEnd :: rest) ln1
+  have hneg1 : ¬ ((f.atoms.length : Int) < 0) := by omega
+  have hneg2 : ¬ ((f.bonds.length : Int) < 0) := by omega
+  have hme : (['M', ' ', ' ', 'E', 'N', 'D'] : Line) ≠ sdfEnd := by decide
+  refine ⟨ln2 + 1 + 1, ?_⟩
+  simp [sdfDumpOne, splitNl_no_nl _ (titleOr_no_nl _ hnl), sdfLoadOne, h1, h2, h3, hneg1, hneg2, hr1, hr2,
+    sdfFindEndM, sdfFindEnd, hme, sdfNorm]
+
+theorem sdf_dump_ne (f : SdfFrame α β) : sdfDumpOne fc fa fb f ≠ [] := by
+  simp [sdfDumpOne]
+
+theorem sdf_step (hc : SdfCountsOk fc) (ha : ∀ a, pa (fa a) = some a) (hb : ∀ b, pb (fb b) = some b)
+    (f : SdfFrame α β) (hnl : '\n' ∉ f.title) (rest : List Line) (ln : Int) (first : Bool) :
+    ∃ s' ln', runPeek sdfSkel.peek first ⟨sdfDumpOne fc fa fb f ++ rest, ln⟩ = .go s' ∧
+      sdfLoadOne pa pb s' = .ok (sdfNorm f) ⟨rest, ln'⟩ := by
+  obtain ⟨ln', hl⟩ := sdf_prefix_law fc pa fa pb fb hc ha hb f hnl rest ln
+  refine ⟨_, ln', peekPushAll_go _ first ⟨fc f.atoms.length f.bonds.length, ?_, (hc _ _).2.2.2⟩, hl⟩
+  simp [sdfDumpOne]
+
+/-- **round trip, any number of molecules**, trailing blank lines ignored -/
+theorem sdf_roundtrip (hc : SdfCountsOk fc) (ha : ∀ a, pa (fa a) = some a) (hb : ∀ b, pb (fb b) = some b)
+    (fs : List (SdfFrame α β)) (hne : fs ≠ []) (hnl : ∀ f ∈ fs, '\n' ∉ f.title)
+    (blanks : List Line) (hbl : ∀ l ∈ blanks, isBlank l = true) :
+    loadMany sdfSkel (sdfLoadOne pa pb) (fs.flatMap (sdfDumpOne fc fa fb) ++ blanks) = ⟨fs.map sdfNorm, .done⟩ := by
+  have htail : ∀ fuel ln, fuel ≥ blanks.length + 1 →
+      runLoop sdfSkel (sdfLoadOne pa pb) fuel false ⟨blanks, ln⟩ = (([] : List (SdfFrame α β)), GenFinal.ret) := by
+    intro fuel ln hf
+    cases fuel with
+    | zero => simp at hf
+    | succ fuel => simp [runLoop, sdfSkel, runPeek, collectGo_none blanks [] ln hbl]
+  obtain ⟨r, hr, he⟩ := runLoop_blocks sdfSkel (sdfLoadOne pa pb) (sdfDumpOne fc fa fb) sdfNorm
+    (fun f => '\n' ∉ f.title) (sdf_dump_ne fc fa fb)
+    (fun f hf rest ln first => sdf_step fc pa fa pb fb hc ha hb f hf rest ln first)
+    blanks (fun r => r = (([] : List (SdfFrame α β)), GenFinal.ret)) htail fs _ 0 true hnl (Or.inl hne)
+    (Nat.le_refl _)
+  subst hr
+  simpa [apiFinal] using loadMany_of_runLoop _ _ _ _ _ he
+
+/-- **malformed_reached / truncated_last** for SDF: after any number of complete molecules, a block on which
+    `load_one` raises (StopIteration because the file ends inside the header, the atom or the bond block; LoadError
+    because `$$$$` is missing or the record is not V2000; ValueError for an unreadable count or field) makes the
+    sequence end with LoadError after exactly the complete molecules.  `hbad` is discharged for truncated files by
+    `sdf_cut_header_stops` below and, for every cut point, checked against the real reader by the `trajc` stream. -/
+theorem sdf_malformed_reached (hc : SdfCountsOk fc) (ha : ∀ a, pa (fa a) = some a) (hb : ∀ b, pb (fb b) = some b)
+    (fs : List (SdfFrame α β)) (hnl : ∀ f ∈ fs, '\n' ∉ f.title)
+    (bad : List Line) (hnb : ∃ l ∈ bad, isBlank l = false)
+    (hbad : ∀ ln, ∃ e s, sdfLoadOne pa pb ⟨bad, ln⟩ = .raise e s) :
+    ∃ ln, loadMany sdfSkel (sdfLoadOne pa pb) (fs.flatMap (sdfDumpOne fc fa fb) ++ bad) =
+      ⟨fs.map sdfNorm, .loadError ln⟩ := by
+  have htail : ∀ fuel ln first, fuel ≥ bad.length + 1 →
+      EndsRaised (runLoop sdfSkel (sdfLoadOne pa pb) fuel first ⟨bad, ln⟩) := by
+    intro fuel ln first hfu
+    obtain ⟨e, s, hst⟩ := hbad ln
+    cases fuel with
+    | zero => simp at hfu
+    | succ fuel =>
+      obtain ⟨e', he'⟩ := runLoop_raise .peekPushAll (sdfLoadOne pa pb) fuel first _ _ _ _
+        (peekPushAll_go ⟨bad, ln⟩ first hnb) hst
+      exact endsRaised_of he'
+  obtain ⟨r, ⟨hr1, e, s, hr2⟩, he⟩ := runLoop_blocks_any sdfSkel (sdfLoadOne pa pb) (sdfDumpOne fc fa fb) sdfNorm
+    (fun f => '\n' ∉ f.title) (sdf_dump_ne fc fa fb)
+    (fun f hf rest ln first => sdf_step fc pa fa pb fb hc ha hb f hf rest ln first)
+    bad EndsRaised htail fs _ 0 true hnl (Nat.le_refl _)
+  refine ⟨s.lineno, ?_⟩
+  have := loadMany_of_runLoop _ _ _ _ _ he
+  simpa [hr1, hr2, apiFinal] using this
+
+/-- a molecule cut inside its four header lines: StopIteration in `load_one` -/
+theorem sdf_cut_header_stops (t : List Line) (ht : 0 < t.length ∧ t.length < 4) (ln : Int) :
+    ∃ s, sdfLoadOne pa pb ⟨t, ln⟩ = .raise .stop s := by
+  match t, ht with
+  | [a], _ => exact ⟨_, by simp [sdfLoadOne]; rfl⟩
+  | [a, b], _ => exact ⟨_, by simp [sdfLoadOne]; rfl⟩
+  | [a, b, c], _ => exact ⟨_, by simp [sdfLoadOne]; rfl⟩
+  | _ :: _ :: _ :: _ :: _, h => simp at h; omega
+end sdf
+
+/-! ## PDB (writer + reader) -/
+
+section pdb
+variable {α β : Type} (pa : Line → Option α) (fa : α → Line) (pb : Line → Option β) (fb : β → Line)
+
+/-- **prefix-consumption law** for PDB.  Domain: at least one atom (see `pdb_empty_frame_merged_violated`),
+    single-line title and compound (FULL STATEMENT, not proved: also for multi-line titles/compounds with fewer
+    than 99 998 lines, where the continuation prefix `TITLE` + `str(i+2).rjust(5)` + `' '` is stripped again by
+    `line[10:].strip()`; the `traj:pdb` stream exercises those). -/
+theorem pdb_prefix_law (ha : ∀ a, pa (pATOM ++ [' ', ' '] ++ fa a) = some a)
+    (hb : ∀ b, pb (pCONECT ++ fb b) = some b) (o : PdbObj α β) (hat : o.atoms ≠ [])
+    (hnl : '\n' ∉ o.title) (hcn : ∀ c, o.compnd = some c → '\n' ∉ c) (rest : List Line) (ln : Int) :
+    ∃ ln', pdbLoadOne pa pb ⟨pdbDumpOne fa fb o ++ rest, ln⟩ = .ok (pdbNorm o) ⟨rest, ln'⟩ := by
+  obtain ⟨title, compnd, atoms, conects⟩ := o
+  simp only at hat hnl hcn
+  have hT : splitNl (titleOr title) = [titleOr title] := splitNl_no_nl _ (titleOr_no_nl _ hnl)
+  have hfound : (false || !atoms.isEmpty) = true := by
+    cases atoms with
+    | nil => exact absurd rfl hat
+    | cons _ _ => rfl
+  cases compnd with
+  | none =>
+    obtain ⟨ln1, h1⟩ := pdbGo_atoms pa fa pb ha atoms
+      (conects.map (fun b => pCONECT ++ fb b) ++ (pEND :: rest)) (ln + 1) ⟨[] ++ [strip (titleOr title)], [], [], [], false⟩ false
+    obtain ⟨ln2, h2⟩ := pdbGo_conects pa pb fb hb conects (pEND :: rest) ln1
+      ⟨[] ++ [strip (titleOr title)], [], [] ++ atoms, [], false⟩ (false || !atoms.isEmpty)
+    refine ⟨ln2 + 1, ?_⟩
+    simp only [pdbLoadOne, pdbDumpOne, hT, pdbMulti, pdbMultiAux, List.append_assoc, List.cons_append,
+      List.nil_append, List.singleton_append, pdbGo_title]
+    simp only [List.nil_append, List.append_assoc, List.cons_append] at h1 h2
+    rw [h1, h2, hfound]
+    simp [pdbGo, pEND, pTITLE, pCOMPND, pATOM, pHETATM, pCONECT, startsWith, pdbNorm, hT]
+  | some c =>
+    have hC : splitNl c = [c] := splitNl_no_nl _ (hcn c rfl)
+    obtain ⟨ln1, h1⟩ := pdbGo_atoms pa fa pb ha atoms
+      (conects.map (fun b => pCONECT ++ fb b) ++ (pEND :: rest)) (ln + 1 + 1)
+      ⟨[] ++ [strip (titleOr title)], [] ++ [strip c], [], [], false⟩ false
+    obtain ⟨ln2, h2⟩ := pdbGo_conects pa pb fb hb conects (pEND :: rest) ln1
+      ⟨[] ++ [strip (titleOr title)], [] ++ [strip c], [] ++ atoms, [], false⟩ (false || !atoms.isEmpty)
+    refine ⟨ln2 + 1, ?_⟩
+    simp only [pdbLoadOne, pdbDumpOne, hT, hC, pdbMulti, pdbMultiAux, List.append_assoc, List.cons_append,
+      List.nil_append, List.singleton_append, pdbGo_title, pdbGo_compnd]
+    simp only [List.nil_append, List.append_assoc, List.cons_append] at h1 h2
+    rw [h1, h2, hfound]
+    simp [pdbGo, pEND, pTITLE, pCOMPND, pATOM, pHETATM, pCONECT, startsWith, pdbNorm, hT, hC]
+
+theorem pdb_dump_ne (o : PdbObj α β) : pdbDumpOne fa fb o ≠ [] := by
+  simp [pdbDumpOne]
+
+/-- the part of the PDB domain the round trip is proved for -/
+def PdbDom (o : PdbObj α β) : Prop :=
+  o.atoms ≠ [] ∧ '\n' ∉ o.title ∧ ∀ c, o.compnd = some c → '\n' ∉ c
+
+/-- **round trip, any number of frames (`_partial`: single-line titles, see `pdb_prefix_law`)**: the file written
+    by dump_many reads back as the same frames in order; after the last `END` the reader finds no further atom
+    record, `load_one` raises "Molecule could not be read" and — because at least one frame was read — the loop
+    returns. -/
+theorem pdb_roundtrip_partial (ha : ∀ a, pa (pATOM ++ [' ', ' '] ++ fa a) = some a)
+    (hb : ∀ b, pb (pCONECT ++ fb b) = some b) (os : List (PdbObj α β)) (hne : os ≠ [])
+    (hd : ∀ o ∈ os, PdbDom o) :
+    loadMany pdbSkel (pdbLoadOne pa pb) (os.flatMap (pdbDumpOne fa fb)) = ⟨os.map pdbNorm, .done⟩ := by
+  have htail : ∀ fuel ln, fuel ≥ ([] : List Line).length + 1 →
+      runLoop pdbSkel (pdbLoadOne pa pb) fuel false ⟨[], ln⟩ = (([] : List (PdbFrame α β)), GenFinal.ret) := by
+    intro fuel ln hf
+    cases fuel with
+    | zero => simp at hf
+    | succ fuel => simp [runLoop, pdbSkel, runPeek, pdbLoadOne, pdbGo, findHandler]
+  obtain ⟨r, hr, he⟩ := runLoop_blocks pdbSkel (pdbLoadOne pa pb) (pdbDumpOne fa fb) pdbNorm
+    PdbDom (pdb_dump_ne fa fb)
+    (fun o ho rest ln first => by
+      obtain ⟨ln', hl⟩ := pdb_prefix_law pa fa pb fb ha hb o ho.1 ho.2.1 ho.2.2 rest ln
+      exact ⟨_, ln', rfl, hl⟩)
+    [] (fun r => r = (([] : List (PdbFrame α β)), GenFinal.ret)) htail os
+    ((os.flatMap (pdbDumpOne fa fb)).length + 1) 0 true hd (Or.inl hne) (by simp)
+  subst hr
+  have := loadMany_of_runLoop pdbSkel (pdbLoadOne pa pb) (os.flatMap (pdbDumpOne fa fb)) _ _
+    (by simpa using he)
+  simpa [apiFinal] using this
+
+/-- **malformed_reached** for PDB: an unreadable ATOM/HETATM/CONECT record (any exception other than the
+    "no molecule" LoadError) in a later frame is raised as LoadError after the complete frames. -/
+theorem pdb_malformed_reached_partial (ha : ∀ a, pa (pATOM ++ [' ', ' '] ++ fa a) = some a)
+    (hb : ∀ b, pb (pCONECT ++ fb b) = some b) (os : List (PdbObj α β)) (hd : ∀ o ∈ os, PdbDom o)
+    (bad : List Line) (hbad : ∀ ln, ∃ s, pdbLoadOne pa pb ⟨bad, ln⟩ = .raise .other s) :
+    ∃ ln, loadMany pdbSkel (pdbLoadOne pa pb) (os.flatMap (pdbDumpOne fa fb) ++ bad) =
+      ⟨os.map pdbNorm, .loadError ln⟩ := by
+  have htail : ∀ fuel ln first, fuel ≥ bad.length + 1 →
+      EndsRaised (runLoop pdbSkel (pdbLoadOne pa pb) fuel first ⟨bad, ln⟩) := by
+    intro fuel ln first hfu
+    obtain ⟨s, hst⟩ := hbad ln
+    cases fuel with
+    | zero => simp at hfu
+    | succ fuel =>
+      exact endsRaised_of (e := .other) (s := s) (by simp [runLoop, pdbSkel, runPeek, hst, findHandler])
+  obtain ⟨r, ⟨hr1, e, s, hr2⟩, he⟩ := runLoop_blocks_any pdbSkel (pdbLoadOne pa pb) (pdbDumpOne fa fb) pdbNorm
+    PdbDom (pdb_dump_ne fa fb)
+    (fun o ho rest ln first => by
+      obtain ⟨ln', hl⟩ := pdb_prefix_law pa fa pb fb ha hb o ho.1 ho.2.1 ho.2.2 rest ln
+      exact ⟨_, ln', rfl, hl⟩)
+    bad EndsRaised htail os _ 0 true hd (Nat.le_refl _)
+  refine ⟨s.lineno, ?_⟩
+  have := loadMany_of_runLoop _ _ _ _ _ he
+  simpa [hr1, hr2, apiFinal] using this
+
+/-- a file without any ATOM/HETATM record is rejected (before commit a119425 it yielded zero frames silently) -/
+theorem pdb_no_molecule_rejected (ls : List Line)
+    (h : ∀ l ∈ ls, startsWith pATOM l = false ∧ startsWith pHETATM l = false ∧ startsWith pCONECT l = false) :
+    ∃ ln, loadMany pdbSkel (pdbLoadOne pa pb) ls = ⟨[], .loadError ln⟩ := by
+  have key : ∀ (t : List Line) (ln : Int) (acc : PdbFrame α β),
+      (∀ l ∈ t, startsWith pATOM l = false ∧ startsWith pHETATM l = false ∧ startsWith pCONECT l = false) →
+      ∃ ln', pdbGo pa pb t ln acc false = .raise .loadError ⟨[], ln'⟩ := by
+    intro t
+    induction t with
+    | nil => intro ln acc _; exact ⟨ln + 1, by simp [pdbGo]⟩
+    | cons l t ih =>
+      intro ln acc hl
+      obtain ⟨h1, h2, h3⟩ := hl l (by simp)
+      have ht := fun x hx => hl x (List.mem_cons_of_mem l hx)
+      unfold pdbGo
+      split
+      · exact ih _ _ ht
+      · split
+        · exact ih _ _ ht
+        · simp [h1, h2, h3]
+          exact ih _ _ ht
+  obtain ⟨ln', hk⟩ := key ls 0 ⟨[], [], [], [], false⟩ h
+  refine ⟨ln', ?_⟩
+  simp [loadMany, Lit.ofLines, runLoop, pdbSkel, runPeek, pdbLoadOne, hk, findHandler, apiFinal]
+end pdb
+
 /-! ## Witnesses: the loops before the repairs (commits 634dee3 … 78fd620) violated the property; the loops of
     the tree do not.  All by kernel evaluation of the same executable model, every line accepted as a record. -/
 
